@@ -155,6 +155,23 @@ pub fn run(ctx: &Ctx, rep: &mut Report) {
             rep.count(if vt.impls_portable { "c17:definitions-implementing-Portable" } else { "c17:definitions-not-implementing-Portable" });
         }
     }
+    if ctx.prop == "C17" && ctx.shard == 0 {
+        // concrete library types: whatever implements `Portable` must have alignment 1 (native integers, native length
+        // types and everything that contains them are not platform independent and must not carry the marker)
+        for (name, impls, align) in library_portable_probes() {
+            rep.count("c17:library-types-probed");
+            if impls {
+                rep.count("c17:library-types-implementing-Portable");
+            }
+            if impls && align != 1 {
+                rep.violation(
+                    format!("C17|Portable-impl-on-non-portable-layout|{}", name.replace(' ', "")),
+                    format!("{} implements Portable but has alignment {} (native integers / length types are not platform independent)", name, align),
+                    J::obj().set("prop", J::s("C17")).set("type", J::s(name)),
+                );
+            }
+        }
+    }
     ctx.for_cases(rep, |idx, rep| {
         let case = gen_case(ctx, &shapes, idx);
         let vt = &ctx.zoo[case.si];
